@@ -156,6 +156,16 @@ def judge(ctx, i, step, pre, pre_files, owners, op, res, post, post_files, maxsz
         else:
             ctx.oracle_fail("rtw-os-error", "the request raised an OSError instead of answering", case=case, expected="(bool, reads) or a protocol error", observed="OSError")
         return "os-error"
+    if res == ("err", "ENoSpace"):
+        # a server may refuse a request for lack of room, but only as a whole
+        changed = sorted(n for n in set(pre_files) | set(post_files) if pre_files.get(n) != post_files.get(n))
+        if changed:
+            ctx.oracle_fail("rtw-partial-application-on-no-space",
+                            "the request was refused with NoSpace after part of it had been applied: shares %r changed, data went from %r to %r"
+                            % (changed, {n: pre[n][:16] for n in pre}, {n: post[n][:16] for n in post}),
+                            case=case, expected="all of the request's writes, or none",
+                            observed={str(n): (post[n].hex() if n in post else None) for n in changed})
+        return "refused-space"
     if not enabler_ok:
         if res != ("err", "EBadWriteEnabler"):
             ctx.oracle_fail("rtw-bad-enabler-not-rejected", "a share was created under another write enabler but the request returned %r" % (res,),
@@ -254,6 +264,78 @@ def one_history(ctx, ss, clock, i, maxsz_patch):
     return term, (i, files0, now0, ops, results, files1, maxsz_patch)
 
 
+NOROOM = [("readonly", 0), ("patched", 0), ("patched", 100), ("patched", 467), ("patched", 468)]
+
+
+def noroom_history(ctx, i):
+    """Forced in every run: a server with little or no available space (read-only, or
+    get_available_space patched), and requests that mix EXISTING shares (write, truncate through
+    new_length, delete through new_length=0) with share numbers that do not exist yet, existing
+    first and new first.  Creating a mutable container ignores the available space, so on the
+    real code these requests are applied; whatever the server answers, the statement is judged:
+    an error or (False, ...) leaves every share file byte-identical, True means all applied."""
+    r = ctx.rng("noroom", i)
+    mode, avail = NOROOM[i % len(NOROOM)]
+    ss, clock = M.new_server("c24nr")
+
+    def no_room():                                         # after the first request: the shares exist, then the room is gone
+        if mode == "patched":
+            ss.get_available_space = lambda avail=avail: avail
+        else:
+            ss.readonly_storage = True
+    si = bytes([0x24, 9, i & 0xff, (i >> 8) & 0xff]) + b"\x00" * 12
+    secrets = (WES[0], M.secret(1), M.secret(11))          # one renew secret: the lease is renewed, never a fifth one
+    variant = (i // len(NOROOM)) % 3
+
+    def touch(d):                                          # what happens to an existing share
+        if variant == 0:
+            return ([(0, 1, b"eq", d[:1])], [(r.randint(0, 3), M.rb(r, 3))], None)
+        if variant == 1:
+            return ([], [(0, M.rb(r, 1))], 2)               # truncate
+        return ([(0, len(d), b"eq", d)], [], 0)             # delete
+
+    script = [
+        lambda pre: {0: ([], [(0, M.rb(r, 6))], None), 1: ([(0, 1, b"eq", b"")], [(2, M.rb(r, 5))], None)},
+        lambda pre: dict([(0, touch(pre.get(0, b""))), (2, ([], [(0, M.rb(r, 4))], None))]),                    # existing first, new later
+        lambda pre: dict([(3, ([], [(1, M.rb(r, 4))], None)), (1, touch(pre.get(1, b"")))]),                    # new first, existing later
+        lambda pre: dict([(n, touch(pre[n])) for n in sorted(pre)[:2]] + [(4, ([], [(0, M.rb(r, 2))], 1))]),    # several existing, then new
+        lambda pre: dict([(n, ([], [], 0)) for n in sorted(pre)] + [(r.choice([0, 5]), ([], [(0, M.rb(r, 3))], None))]),   # delete all, then create
+    ]
+    owners = {}
+    now0 = int(clock.seconds())
+    ops, results = [], []
+    for step in range(len(script) + 3):
+        pre = data_of(ss, si)
+        pre_files = M.read_bucket(ss, si)
+        if step < len(script):
+            op, kind = ("tw", secrets, script[step](pre), M.gen_readv(r, 10), step % 2 == 0), "scripted"
+        else:
+            op, kind = gen_request(r, pre, owners, M.real_max_size(), 1500)
+            op = (op[0], (op[1][0],) + secrets[1:]) + op[2:]
+        res = M.run_sop(ss, clock, si, op)
+        if step == 0:
+            no_room()
+        ops.append(op)
+        results.append(res)
+        post = data_of(ss, si)
+        post_files = M.read_bucket(ss, si)
+        outcome = judge(ctx, ("noroom", i), step, pre, pre_files, owners, op, res, post, post_files, M.real_max_size())
+        for n in list(owners):
+            if n not in post_files:
+                del owners[n]
+        for n in post_files:
+            owners.setdefault(n, op[1][0])
+        tw = op[2]
+        mixed = bool(set(tw) & set(pre)) and bool(set(tw) - set(pre))
+        ctx.case((mode, avail, tuple(sorted(pre.items())), repr(op)) if mixed else None,
+                 kind="no-room(%s,%d):%s:%s" % (mode, avail, kind, outcome))
+        if outcome in ("os-error", "refused-space"):
+            break
+    files1 = M.read_bucket(ss, si)
+    term = M.srun_term({}, now0, ops, results, files1, avail=avail)
+    return term, (("noroom", i), {}, now0, ops, results, files1, None)
+
+
 def run(ctx):
     ctx.correspondence("slot-tw-model-vs-server")
     ss, clock = M.new_server("c24")
@@ -265,11 +347,15 @@ def run(ctx):
         if out is not None:
             terms.append(out[0])
             info.append(out[1])
+    for i in range(ctx.n(15, 60)):
+        t, inf = noroom_history(ctx, i)
+        terms.append(t)
+        info.append(inf)
     bad = ctx.coq_check(M.IMPORTS, terms, preamble=M.PREAMBLE, tag="c24", shard=12)
     for ix in bad:
         i, files0, now0, ops, results, files1, patch = info[ix]
-        ctx.mismatch("slot-model-vs-impl", "history %d: the Coq model of slot_testv_and_readv_and_writev and the server disagree "
-                     "(results or final file bytes)" % i,
+        ctx.mismatch("slot-model-vs-impl", "history %r: the Coq model of slot_testv_and_readv_and_writev and the server disagree "
+                     "(results or final file bytes)" % (i,),
                      case={"history": i, "max_size": patch, "ops": [repr(o)[:600] for o in ops]},
                      expected="model", observed={"results": [repr(x)[:300] for x in results]},
                      correspondence="slot-tw-model-vs-server")
@@ -282,6 +368,11 @@ def replay(ctx, rec):
     if "history" not in case:
         return {"note": "record has no history index"}
     i = case["history"]
+    if isinstance(i, (list, tuple)) and i and i[0] == "noroom":
+        t, inf = noroom_history(ctx, i[1])
+        bad = ctx.coq_check(M.IMPORTS, [t], preamble=M.PREAMBLE, tag="c24r")
+        return {"history": list(i), "server": NOROOM[i[1] % len(NOROOM)], "ops": [repr(o)[:600] for o in inf[3]],
+                "results": [repr(x)[:300] for x in inf[4]], "model_agrees": not bad}
     ss, clock = M.new_server("c24r")
     # the clock value at the start of history i depends on the ticks of the earlier ones: re-run them silently
     sub = type(ctx)(ctx.pid, rec.get("tier", "quick"), rec.get("seed", 0))
